@@ -19,7 +19,7 @@ POOL = [
     # literals
     '1', '0', '42', '1.5', '.5', '1.', '1e5', '0x1F', '-1', "'s'", "''", "'a''b'", "'x;y'", "'a\nb'", '$$b$$', '$t$ ; $t$',
     # comments, hints
-    '/*c*/', '/* ; */', '/*+ h */', '/*!40101 set x=1 */', '--c\n', '-- x;\n', '--+ h\n', '# c\n',
+    '/*c*/', '/* ; */', '/*+ h */', '/*!40101 set x=1 */', '# \n', 'GO[', 'go$$', '--c\n', '-- x;\n', '--+ h\n', '# c\n',
     # punctuation and operators
     '(', ')', '(', ')', '[', ']', ',', ',', ';', ';', '.', '::', ':=', '*', '+', '-', '/', '%', '||', '=', '==', '<>', '!=', '<', '>', '<=', '>=',
     '->', '->>', '#>', '@>', '?', '%s', ':p', '$1', '%(n)s', '\\g',
